@@ -115,7 +115,12 @@ def decode_manager_group(payload):
                 raise DecodeError('bad proof flag')
         elif kind == 'transaction':
             c['amount'] = r.nat()
-            r.take(22)
+            d22 = bytes(r.take(22))
+            # the destination as the node's JSON shows it (implicit: tag 00 + curve + hash; originated: 01 + hash + 00)
+            if d22[0] == 0:
+                c['destination'] = b58check({0: bytes([6, 161, 159]), 1: bytes([6, 161, 161]), 2: bytes([6, 161, 164]), 3: bytes([6, 161, 166])}[d22[1]], d22[2:])
+            elif d22[0] == 1:
+                c['destination'] = b58check(P_KT1, d22[1:21])
             flag = r.byte()
             if flag == 0xff:
                 ep = r.byte()
@@ -376,8 +381,9 @@ class FakeNode(RpcNode):
         sl = dec['sig_len']
         self.mempool.append({
             'hash': oph, 'counters': got, 'branch': b58check(P_BLOCK, dec['branch']),
-            'contents': [{'kind': c['kind'], 'source': self.address, 'fee': str(c['fee']), 'counter': str(c['counter']),
-                          'gas_limit': str(c['gas_limit']), 'storage_limit': str(c['storage_limit'])} for c in dec['contents']],
+            'contents': [dict({'kind': c['kind'], 'source': self.address, 'fee': str(c['fee']), 'counter': str(c['counter']),
+                               'gas_limit': str(c['gas_limit']), 'storage_limit': str(c['storage_limit'])},
+                              **({'destination': c['destination'], 'amount': str(c.get('amount', 0))} if c.get('destination') else {})) for c in dec['contents']],
             'signature': b58check(bytes([4, 130, 43]), raw[-64:]) if sl == 64 else b58check(bytes([40, 171, 64, 207]), raw[-96:]),
         })
         return _resp(200, oph)
